@@ -41,7 +41,8 @@ RULE = (
     "derivative)) over stride 1..16 x derivative 0..3 x dtype {default,f32,f64} x device form {None,'cpu',torch.device}; "
     "object histories of depth 3 over {update a/o/b, b = copy(a) | a.link(o) | a.data(B) | a.inverse() | a.inverse(link=True)} "
     "on FFD/SVFFD x {tensor, Parameter} x {no_grad, grad}, path-exhaustive, invariant (every updated live object's dense "
-    "spline field == exact spline of ITS coefficients) evaluated in every reached state; refinement histories (ffd_hist)"
+    "spline field == exact spline of ITS coefficients) evaluated in every reached state; refinement histories (ffd_hist); memory layout of the coefficient tensor "
+    "(transposed view, step-sliced view, stride-0 expanded batch) for evaluate/subdivide/FFD/SVFFD on a small menu"
 )
 EXPLANATION = "exhaustive comparison of the real B-spline operators, and of call/object histories over them, with the exact rational cubic B-spline basis"
 ASSUMPTIONS = [
@@ -55,7 +56,7 @@ ASSUMPTIONS = [
 ]
 MIN_NONTRIVIAL = {"quick": 9000, "thorough": 30000}
 MIN_OUTCOMES = {"quick": 12000, "thorough": 40000}
-MIN_SUB_TRACES = {"weights": 100, "kernel1d": 40, "coverage": 2000, "eval": 1000, "derivs": 50, "subdivide": 30, "ffd_linear": 100, "ffd_grid": 50, "cpgrid": 20, "ffd_hist": 100, "weights_hist": 2000, "eval_order": 400, "ffd_objects": 1500}
+MIN_SUB_TRACES = {"weights": 100, "kernel1d": 40, "coverage": 2000, "eval": 1000, "derivs": 50, "subdivide": 30, "ffd_linear": 100, "ffd_grid": 50, "cpgrid": 20, "ffd_hist": 100, "weights_hist": 2000, "eval_order": 400, "ffd_objects": 1500, "layout": 40}
 
 EPS = {"f32": 2.0 ** -23, "f64": 2.0 ** -52}
 DT = {"f32": torch.float32, "f64": torch.float64}
@@ -998,6 +999,89 @@ def case_ffd_objects(case, ctx):
                     return
 
 
+# ---------------------------------------------------------------------------
+# memory layout of the coefficient tensor
+LAYOUTS = ["transposed", "sliced", "expanded"]
+LAYOUT_N = 3
+
+
+def layout_targets():
+    """name -> (callable, contiguous coefficient tensor (N=3, C, *cp))."""
+    import deepali.spatial as S
+    from deepali.core import bspline as B
+    from torch.nn import Parameter
+
+    def table(shape, salt):
+        x = (salt * 2654435761 + 4242) & 0xFFFFFFFF
+        vals = []
+        for _ in range(int(np.prod(shape))):
+            x = (1103515245 * x + 12345) & 0x7FFFFFFF
+            vals.append((((x >> 8) % 33) - 16) / 8.0)
+        return torch.tensor(np.array(vals).reshape(shape), dtype=torch.float32)
+
+    T = {}
+    for D, cp, stride in ((1, [6], (2,)), (2, [5, 6], (2, 3)), (3, [4, 5, 4], (1, 2, 2))):
+        data = table([LAYOUT_N, 2] + cp, D)
+        for tr in (False, True):
+            T[f"evaluate[D={D},transpose={'T' if tr else 'F'}]"] = (lambda d, s=stride, t=tr: B.evaluate_cubic_bspline(d, stride=s, transpose=t), data)
+        T[f"evaluate[D={D},derivative]"] = (lambda d, s=stride, D=D: B.evaluate_cubic_bspline(d, stride=s, derivative=(1,) + (0,) * (D - 1)), data)
+        T[f"subdivide[D={D},all]"] = (lambda d: B.subdivide_cubic_bspline(d), data)
+        if D > 1:
+            T[f"subdivide[D={D},x]"] = (lambda d: B.subdivide_cubic_bspline(d, dims=[0]), data)
+    for cls_name in ("FreeFormDeformation", "StationaryVelocityFreeFormDeformation"):
+        for kind in ("tensor", "param"):
+            size_x, stride_x = [5, 4], [2, 3]
+            cp = _real_cp(size_x[::-1], stride_x[::-1])
+            data = table([LAYOUT_N, 2] + list(cp), 7)
+
+            def run(d, cls_name=cls_name, kind=kind, size_x=size_x, stride_x=stride_x):
+                kw = {"steps": 2} if cls_name != "FreeFormDeformation" else {}
+                f = getattr(S, cls_name)(_grid(_grid_spec(size_x, "unit")), params=Parameter(d) if kind == "param" else d, stride=tuple(stride_x), **kw)
+                f.update()
+                return (f.v if cls_name != "FreeFormDeformation" else f.u).detach()
+
+            T[f"{cls_name}.update[{kind}]"] = (run, data)
+    return T
+
+
+def case_layout(case, ctx):
+    """Same coefficients, different memory layout: no exception, same result as with a contiguous tensor, operand unchanged."""
+    from ref.layout import relayout
+
+    name, form = case["target"], case["layout"]
+    fn, data = layout_targets()[name]
+    sig = f"C14/layout/target={name}/layout={form}"
+    ctx.acc.state("layout", name, form)
+    ctx.acc.trace("layout")
+    if form == "expanded":
+        ref_in, tst_in = relayout(data[0], "repeat", LAYOUT_N), relayout(data[0], "expanded", LAYOUT_N)
+    else:
+        ref_in, tst_in = relayout(data, "contig"), relayout(data, form)
+    fp = tensor_bytes(tst_in)
+    ref = ctx.call(f"C14/layout/target={name}/layout=contig", fn, ref_in)
+    if ref is None:
+        return
+    res = ctx.call(sig, fn, tst_in)
+    if res is None:
+        return
+    if tensor_bytes(tst_in) != fp:
+        ctx.bad(sig + "/operand-mutated", "the coefficient tensor was modified in place")
+    if ctx.observe(("layout", name, form), res):
+        ctx.acc.nontriv("layout", name, form)
+    _cmp(ctx, sig, _np(res), _np(ref), C * EPS["f32"] * (float(ref.abs().max()) + 1.0), f"{name}: coefficients given as {form} view vs contiguous")
+
+
+def cases_layout(tier):
+    from ref.layout import applicable
+
+    out = []
+    for name, (_, data) in layout_targets().items():
+        for form in LAYOUTS:
+            if form == "expanded" or applicable(data, form):
+                out.append({"sub": "layout", "target": name, "layout": form})
+    return out
+
+
 def case_cpgrid(case, ctx):
     from deepali.core import bspline as B
 
@@ -1050,6 +1134,7 @@ SUBS = {
     "weights_hist": case_weights_hist,
     "eval_order": case_eval_order,
     "ffd_objects": case_ffd_objects,
+    "layout": case_layout,
 }
 
 
@@ -1291,13 +1376,15 @@ GENERATORS = [
     ("ffd_hist", cases_ffd_hist, 16),
     ("weights_hist", cases_weights_hist, 150),
     ("ffd_objects", cases_ffd_objects, 150),
+    ("layout", cases_layout, 60),
 ]
 
 
 def bounds(tier):
     b = {"stride_range": [1, 16], "derivative_range": [0, 3], "coverage_sizes": [1, 64], "D": [1, 2, 3], "subdivision_chain_depth": 2, "ffd_grid_refinements_in_a_row": 2,
          "object_history_depth": 3, "object_alphabet": len(OBJ_OPS), "object_histories_FFD": len(obj_histories("FreeFormDeformation", 3)),
-         "object_histories_SVFFD": len(obj_histories("StationaryVelocityFreeFormDeformation", 3)), "functional_history_depth": 5, "device_forms": 3}
+         "object_histories_SVFFD": len(obj_histories("StationaryVelocityFreeFormDeformation", 3)), "functional_history_depth": 5, "device_forms": 3,
+         "layout_forms": ["contig"] + LAYOUTS, "layout_targets": len(layout_targets())}
     for name, gen, _ in GENERATORS:
         b["cases_" + name] = len(gen(tier))
     return b
